@@ -57,7 +57,8 @@ def program(x):
         lines += item
         return "\n".join(lines) + "\n", [start, len(lines)], [start, len(lines)]
     if rule == "data_variant":
-        bad = ["    Bad(u8)," if shape == "tuple" else "    Bad { x: u8 },"]
+        body = {"tuple": "    Bad(u8),", "named": "    Bad { x: u8 },", "tuple0": "    Bad(),"}[shape.replace("_disabled", "")]
+        bad = (["    #[strum(disabled)]"] if shape.endswith("_disabled") else []) + [body]
     elif rule == "lifetime":
         generics = "<'a>" if shape == "lt" else "<'a, T: Default + Clone + PartialEq + ::core::fmt::Debug + 'a>"
         if shape == "lt_only_disabled":
@@ -96,8 +97,10 @@ def program(x):
         ok_variants = first + (ok_variants if shape != "adjacent" else [])
         pos = "last"
     elif rule in ("default_arity", "transparent_arity"):
-        body = {"unit": "    Bad,", "tuple2": "    Bad(String, String),", "named2": "    Bad { a: String, b: String },", "tuple0": "    Bad(),"}[shape]
-        bad = ["    #[strum(%s)]" % kw, body]
+        base = shape.replace("_ts", "").replace("_ser", "")
+        body = {"unit": "    Bad,", "tuple2": "    Bad(String, String),", "named2": "    Bad { a: String, b: String },", "tuple0": "    Bad(),"}[base]
+        extra = ', to_string = "pair"' if shape.endswith("_ts") else ', serialize = "pair"' if shape.endswith("_ser") else ""
+        bad = ["    #[strum(%s%s)]" % (kw, extra), body]
     elif rule == "unit_placeholder":
         if shape == "via_serialize":       # the placeholder arrives through the longest serialize, there is no to_string
             bad = ['    #[strum(serialize = "l", serialize = "level-{0}")]', "    Bad,"]
